@@ -72,6 +72,11 @@ CLAIMED = {
    "Geometry: journals from G with <= 2 deviations over 25 parameter groups (code, quoted commodities, | with 0-2 blanks, @ @@ = ==, status, tags after non-ASCII text, several tags, every directive kind, CRLF ...) and all fragment pairs for the structural clauses: decoded tokens strictly increasing and non-overlapping, inside their line in UTF-16 units, type and modifiers inside the advertised legend; each token equals the rendered span of exactly one lexeme of its kind (code with parentheses, quoted commodity with quotes, operator on the operator, tag on name:) and every lexeme of a mapped kind has a token; range(i, j) for every line interval equals the full result restricted to those lines. Histories: BFS to depth 4 (6 thorough) over 23 operations on two documents with three texts (one empty), full / delta with current, superseded, never-issued and empty result id / range / close / reopen, and a second server sharing the process-global cache; the array the client model rebuilds from delta edits must equal the full result of a fresh server for the current text.",
    "Client model: holds the array of its latest result id only; a response without result id makes it forget all ids (clients that keep using an id afterwards are outside the property). State key = texts, client arrays, shape of the token cache (ids abstracted).",
    "DESIGN.md §5 C17"),
+ "C09": ("exploration",
+   "bounded-exhaustive enumeration of multi-file workspaces rendered from the model; occurrence lists known by construction; rename result compared byte for byte with the model re-rendered under the new name",
+   "Workspaces of 1..3 files (thorough 4) with every include tree rooted at main.journal (1, 1, 3, 16 trees), symbol kind account / commodity / payee, 0..2 occurrences per file, a declaration directive in one file or none, a distractor symbol sharing a prefix, workspace root present or absent, every file closed, all files open, or one file open with an unsaved edit that adds or removes an occurrence. From every file holding an occurrence, at every character of every occurrence (declarations included), with includeDeclaration on and off: textDocument/references must return exactly the model's occurrences in the requesting file and its include tree (without a workspace) or in all workspace files (with one), editor text for open files, each under the URI of the file that contains it; textDocument/rename must yield, after applying the WorkspaceEdit with the reference edit applier, exactly the texts rendered from the model with the name substituted.",
+   "Diamonds and cycles are C10's business. Symbols in files that are neither in the include tree nor in the workspace are not covered.",
+   "DESIGN.md §5 C09"),
 }
 
 NOT_YET = "check not built yet in this session (work in progress; see DESIGN.md §5 for the plan)"
